@@ -4,7 +4,8 @@
 From Coq Require Import NArith List Bool.
 From Verif Require Import Common.Bytes Codec.ChainId.
 From Verif Require Import P2P.Frame P2P.FrameProofs P2P.Handshake P2P.HandshakeProofs
-  P2P.Inbound P2P.InboundProofs P2P.BlockId P2P.BlockIdProofs P2P.Stream P2P.StreamProofs.
+  P2P.Inbound P2P.InboundProofs P2P.BlockId P2P.BlockIdProofs P2P.Stream P2P.StreamProofs
+  P2P.BlockRecv P2P.BlockRecvProofs.
 Import ListNotations.
 Open Scope N_scope.
 
@@ -318,3 +319,116 @@ Theorem C18_forged_poisons_genuine_refuted :
     snd (add_block H valid empty_store genuine) = Added.
 Proof. exact forged_poisons_genuine_refuted. Qed.
 Print Assumptions C18_forged_poisons_genuine_refuted.
+
+(** * Block receive path (p2p/blkreceiver.go, p2p/syncmanager.go) *)
+
+(** Whatever responses arrive: blocks handed to the syncer carry exactly the requested
+    identifiers (Hash fields), in order, none extra, none missing, none above the size
+    limit; the receiver is then finished. *)
+Theorem C18_recv_delivers_requested_order : forall too_big hashes inputs st evs bs,
+  run too_big (new_receiver hashes) inputs = (st, evs) ->
+  In (TellBlocks bs) (map ev_tell evs) ->
+  map b_hash_field bs = hashes /\ length bs = length hashes /\
+  Forall (fun b => too_big b = false) bs /\ r_got st = bs /\ r_status st = Finished.
+Proof. exact recv_delivers_requested_order. Qed.
+Print Assumptions C18_recv_delivers_requested_order.
+
+(** A chunk containing a block whose identifier is not the next requested one: the syncer
+    is told "unexpected blocks response", the receiver leaves the waiting state and every
+    later response produces nothing. *)
+Theorem C18_recv_unrequested_rejected : forall too_big st pre b post has_next later,
+  r_status st = Waiting ->
+  map b_hash_field pre = firstn (length pre) (skipn (length (r_got st)) (r_hashes st)) ->
+  (length pre <= length (skipn (length (r_got st)) (r_hashes st)))%nat ->
+  Forall (fun x => too_big x = false) pre ->
+  (length (r_got st) + length pre < length (r_hashes st))%nat ->
+  nth_error (r_hashes st) (length (r_got st) + length pre) <> Some (b_hash_field b) ->
+  exists st1,
+    receive_resp too_big st false (BBlocks true (pre ++ b :: post) has_next)
+      = (st1, mk_event (TellErr EUnexpectedBlock) (negb has_next)) /\
+    r_status st1 <> Waiting /\
+    run too_big st1 later = (st1, map (fun _ => silent) later).
+Proof. exact recv_unrequested_rejected. Qed.
+Print Assumptions C18_recv_unrequested_rejected.
+
+(** Never more blocks kept than requested; the request list is never altered. *)
+Theorem C18_recv_count_bounded : forall too_big hashes inputs st evs,
+  run too_big (new_receiver hashes) inputs = (st, evs) ->
+  (length (r_got st) <= length hashes)%nat /\ r_hashes st = hashes.
+Proof. exact recv_count_bounded. Qed.
+Print Assumptions C18_recv_count_bounded.
+
+(** The syncer is told at most once per receiver (result or error). *)
+Theorem C18_recv_tells_at_most_once : forall too_big inputs st st' evs,
+  run too_big st inputs = (st', evs) -> (length (tells evs) <= 1)%nat.
+Proof. exact recv_tells_at_most_once. Qed.
+Print Assumptions C18_recv_tells_at_most_once.
+
+(** F8 on this path.  Refuted: for every digest function H a block whose Hash field is the
+    requested identifier but whose header has another digest is delivered. *)
+Theorem C18_recv_requested_id_not_content_refuted : forall H : bytes -> bytes,
+  exists (hashes : list bytes) (b : block),
+    run (fun _ => false) (new_receiver hashes) [(false, BBlocks true [b] false)]
+      = (mk_rstate hashes [b] Finished, [mk_event (TellBlocks [b]) true]) /\
+    map b_hash_field [b] = hashes /\
+    map (own_digest H) [b] <> hashes.
+Proof. exact recv_requested_id_not_content_refuted. Qed.
+Print Assumptions C18_recv_requested_id_not_content_refuted.
+
+(** Partial: if every delivered block's Hash field is consistent with its header, the
+    delivered contents are the requested ones. *)
+Theorem C18_recv_requested_id_is_content_partial :
+  forall (H : bytes -> bytes) too_big hashes inputs st evs bs,
+  run too_big (new_receiver hashes) inputs = (st, evs) ->
+  In (TellBlocks bs) (map ev_tell evs) ->
+  Forall (fun b => b_hash_field b = own_digest H b) bs ->
+  map (own_digest H) bs = hashes.
+Proof. exact recv_requested_id_is_content_partial. Qed.
+Print Assumptions C18_recv_requested_id_is_content_partial.
+
+(** A block whose Hash field is empty is never delivered for a non-empty requested hash. *)
+Theorem C18_recv_empty_field_rejected : forall too_big hashes inputs st evs bs,
+  run too_big (new_receiver hashes) inputs = (st, evs) ->
+  In (TellBlocks bs) (map ev_tell evs) ->
+  Forall (fun h => h <> []) hashes -> Forall (fun b => b_hash_field b <> []) bs.
+Proof. exact recv_empty_field_rejected. Qed.
+Print Assumptions C18_recv_empty_field_rejected.
+
+(** syncManager: an identifier announced once is a duplicate when announced again (by a
+    block-produced notice with any content, or by a new-block notice). *)
+Theorem C18_notice_duplicate_suppressed : forall too_big cap c b c' a b2,
+  (0 < cap)%nat ->
+  handle_block_produced too_big cap c b = (c', a) -> a <> APanic ->
+  b_hash_field b2 = b_hash_field b ->
+  handle_block_produced too_big cap c' b2 = (c', ADuplicate) /\
+  forall known, handle_new_block_notice cap c' (b_hash_field b) known = (c', ADuplicate).
+Proof. exact notice_duplicate_suppressed. Qed.
+Print Assumptions C18_notice_duplicate_suppressed.
+
+Theorem C18_notice_forward_at_most_once : forall too_big cap c b c1 a1 b2 c2 a2,
+  (0 < cap)%nat ->
+  handle_block_produced too_big cap c b = (c1, a1) ->
+  b_hash_field b2 = b_hash_field b ->
+  handle_block_produced too_big cap c1 b2 = (c2, a2) ->
+  forall x, a2 <> AForward x.
+Proof. exact notice_forward_at_most_once. Qed.
+Print Assumptions C18_notice_forward_at_most_once.
+
+(** F8 on the notice path (refuted: "a suppressed duplicate is the same block"): an
+    oversized block announcing a genuine identifier makes the genuine block be dropped. *)
+Theorem C18_notice_forged_id_suppresses_genuine_refuted : forall too_big (genuine : block),
+  hash_len_ok (b_hash_field genuine) = true -> too_big genuine = false ->
+  forall junk_header,
+  let forged := mk_block (b_hash_field genuine) junk_header in
+  too_big forged = true ->
+  exists c1, handle_block_produced too_big 300 [] forged = (c1, ATooBig) /\
+             handle_block_produced too_big 300 c1 genuine = (c1, ADuplicate) /\
+             handle_block_produced too_big 300 [] genuine = ([b_hash_field genuine], AForward genuine).
+Proof. exact notice_forged_id_suppresses_genuine_refuted. Qed.
+Print Assumptions C18_notice_forged_id_suppresses_genuine_refuted.
+
+(** The legacy single-block response path forwards any one block within the size limit. *)
+Theorem C18_get_block_response_forwards_any : forall too_big b,
+  too_big b = false -> handle_get_block_response too_big [b] = AForward b.
+Proof. exact get_block_response_forwards_any. Qed.
+Print Assumptions C18_get_block_response_forwards_any.
